@@ -148,7 +148,7 @@ TARGETED_PATTERNS = [
     "^\\u00e9+$", "^[\\u00e9-\\u0100]$", "^\\u0100$", "^\\U0001F600$", "^[\\U00010000-\\U0010FFFF]$",
     "^é+$", "^[à-ÿ]$", "^\U0001F600?$",
     "^a*?b$", "^a+?$", "^a??b$", "^a{2}?$", "^a{1,2}?b$",
-    "^a{,2}b$", "^a{2,}$", "^(a{1}){0,2}$", "^a{ 1 , 2 }$",
+    "^a{,2}b$", "^a{2,}$", "^(a{1}){0,2}$", "^a{01,2}$",
     "^[a-z]+-[0-9]$", "^[{}|]x$", "^[\\^a]$", "^[a^]$", "^[\\-a]$", "^[a\\-z]$", "^[a-]$", "^[-a]$",
     "^[^a-c]$", "^[^\\]]$", "^a.b$", "^(a|)$", "^(|a)$", "^(a|b|cd)+$", "^\\x26\\x3c\\x22$",
     "^a\\tb$", "^[ \\t]*$", "^a b$", "^ a $", "^$", "^()$", "^(^a$)$", "^a^b$", "^a$b$",
@@ -174,7 +174,15 @@ def corpus_patterns() -> List[str]:
 
 def pattern_workload(chk: harness.Check, n_generated: int) -> List[Tuple[str, str]]:
     out: List[Tuple[str, str]] = [("targeted", p) for p in TARGETED_PATTERNS]
-    out += [("corpus", p) for p in corpus_patterns()]
+    from_corpus = corpus_patterns()
+    if chk.tier == "quick":
+        # the long patterns of the v3 model cost seconds each: a seeded sample of them
+        short = [p for p in from_corpus if len(p) <= 300]
+        long_ = [p for p in from_corpus if len(p) > 300]
+        chk.rng("corpus-patterns").shuffle(long_)
+        from_corpus = short + long_[:6]
+    generated: List[Tuple[str, str]] = []
+    out, head = generated, out
     for i in range(n_generated):
         rng = chk.rng("pattern", i)
         r = i % 10
@@ -184,11 +192,27 @@ def pattern_workload(chk: harness.Check, n_generated: int) -> List[Tuple[str, st
             out.append(("regexgen-astral", rg.gen_pattern(rng, "astral", anchored=1.0, surrogate_cp=0.0, inner_anchors=0.0, nongreedy=False)))
         else:
             out.append(("mmgen", mmgen.Generator(rng, mmgen.Profile(astral_patterns=(i % 4 == 0))).gen_pattern()))
-    return out
+    # interleave the repository's own patterns with the generated ones
+    merged: List[Tuple[str, str]] = list(head)
+    corpus_items = [("corpus", p) for p in from_corpus]
+    step = max(1, len(generated) // max(1, len(corpus_items)))
+    for k, item in enumerate(generated):
+        if k % step == 0 and corpus_items:
+            merged.append(corpus_items.pop(0))
+        merged.append(item)
+    merged += corpus_items
+    out = merged
+    # braces that Python reads as text but the front end reads as a quantifier are a
+    # divergence of the regex *parser* (C16), not of the XSD translation
+    return [
+        (source, p) for source, p in out
+        if rg.braces_hint(p) not in ("blank-in-braces", "non-ascii-digit-in-braces")
+    ]
 
 
 # --------------------------------------------------------------------------- helpers
-def xsd_outcome(chk: harness.Check, run: xschema.XsdRun, base: Dict[str, Any], where: str) -> bool:
+def xsd_outcome(chk: harness.Check, run: xschema.XsdRun, base: Dict[str, Any], where: str,
+                patterns: List[str]) -> bool:
     """Record a crash / refusal / time-out of the xsd target; True if a schema exists."""
     chk.hist(f"xsd_outcome/{where}", run.outcome)
     if run.outcome == "ok":
@@ -211,9 +235,10 @@ def xsd_outcome(chk: harness.Check, run: xschema.XsdRun, base: Dict[str, Any], w
     kind, msg = xschema.refusal_class(run.stderr)
     chk.hist("xsd_refusals", f"{kind}:{msg}")
     if kind == "pattern-translation":
+        causes = sorted({c for c in (xschema.cause_of(p) for p in patterns) if c})
         chk.violation(
-            f"xsd-refused/pattern-translation/{msg}",
-            dict(base, stderr=run.stderr[-2500:]),
+            "xsd-refused/pattern-translation/" + (causes[0] if causes else msg),
+            dict(base, stderr=run.stderr[-2500:], patterns=patterns[:8]),
         )
     else:
         chk.count("xsd_refusals_other_skipped")
@@ -274,41 +299,44 @@ def rejection_key(pm: pyexec.PyModel, exp: xschema.Expectations, nodes: Optional
     elem = getattr(error, "elem", None)
     if nodes is None or elem is None:
         return f"valid-document-rejected/{kind}/unmapped"
-    if kind in ("unexpected-child", "content-incomplete", "character-data"):
-        for node in nodes:
-            if node.elem is elem or any(pe is elem for _, _, pe in node.props):
-                return f"valid-document-rejected/{kind}/{inheritance_shape(pm, node.inst.cls)}"
-        return f"valid-document-rejected/{kind}/container"
     for node in nodes:
         decl = {p.name: d for d, p in pm.all_props(node.inst.cls)}
         for name, t, pelem in node.props:
+            base_t = t.strip_optional()
             role = None
             if pelem is elem:
-                role = "value"
-            elif any(child is elem for child in pelem):
+                role = "list" if base_t.kind == "list" else "value"
+            elif any(child is elem for child in pelem) and base_t.kind == "list":
                 role = "item"
-            if role is None:
+            if role is None or (role == "value" and pm.is_class(base_t.name)):
                 continue
             pe = exp.by_prop.get((decl[name], name))
-            base_t = t.strip_optional()
             tname = base_t.inner.name if base_t.kind == "list" and base_t.inner else base_t.name
             prim = pm.primitive_of(tname) or ("enum" if pm.is_enum(tname) else "class")
+            what = "list" if role == "list" else f"{role}:{prim}"
+            if pe is not None and pe.conditional_on_other:
+                return f"valid-document-rejected/constraint-guarded-by-another-property/{kind}/{what}"
             cause = "no-recognised-constraint"
             if pe is not None:
                 ve = pe.item if (role == "item") else pe.value
                 forms = sorted({f"{b.origin}:{b.form}" for b in ve.bounds})
-                if pe.conditional_on_other:
-                    cause = "constraint-guarded-by-another-property"
-                elif forms:
+                if forms:
                     cause = "+".join(forms)[:120]
             inherited = "inherited" if decl[name] != node.inst.cls else "own"
-            return f"valid-document-rejected/{kind}/{role}:{prim}/{inherited}/{cause}"
+            return f"valid-document-rejected/{kind}/{what}/{inherited}/{cause}"
+    for node in nodes:
+        if node.elem is elem or any(pe is elem for _, _, pe in node.props):
+            shape = inheritance_shape(pm, node.inst.cls)
+            if shape == "diamond":
+                return f"valid-document-rejected/diamond-inheritance/{kind}"
+            return f"valid-document-rejected/{kind}/{shape}"
     return f"valid-document-rejected/{kind}/unlocated"
 
 
 # --------------------------------------------------------------------------- (a)+(b)
 def check_model(chk: harness.Check, name: str, text: str, rng: Any, n_instances: int,
-                n_xmllint: int, fixture_snippets: Optional[Dict[str, str]] = None) -> None:
+                n_xmllint: int, fixture_snippets: Optional[Dict[str, str]] = None,
+                deadline: float = float("inf")) -> None:
     base = {"model": name, "text": text}
     try:
         pm = pyexec.PyModel(text)
@@ -321,10 +349,12 @@ def check_model(chk: harness.Check, name: str, text: str, rng: Any, n_instances:
         chk.count("models_rejected_or_crashed_in_front_end")
         return
     chk.count("models_accepted_by_front_end")
-    run = xschema.run_xsd(text, seconds=30.0, snippets=fixture_snippets)
+    run = xschema.run_xsd(text, seconds=chk.pick(15.0, 40.0) if fixture_snippets is None else 300.0,
+                          snippets=fixture_snippets)
     sdk: Optional[pysdk.Sdk] = None
     try:
-        if not xsd_outcome(chk, run, base, "models"):
+        model_patterns = [fn.pattern for fn in pm.functions.values() if fn.pattern is not None]
+        if not xsd_outcome(chk, run, base, "models", model_patterns):
             return
         validators = xschema.Validators(run.xsd or "")
         chk.count("model_schemas_built")
@@ -345,7 +375,7 @@ def check_model(chk: harness.Check, name: str, text: str, rng: Any, n_instances:
         exp = xschema.Expectations(pm)
         names = xschema.Names(pm.xml_namespace or driver.DEFAULT_NAMESPACE)
         has_patterns = exp.has_any_pattern_function()
-        gen = instances.SatisfyingGenerator(pm, rng)
+        gen = xschema.DirectedGenerator(pm, rng, exp)
         classes = gen.instantiable()
         if not classes:
             chk.count("models_without_instantiable_class")
@@ -353,6 +383,9 @@ def check_model(chk: harness.Check, name: str, text: str, rng: Any, n_instances:
         docs_for_lint: List[Tuple[str, bool]] = []
         constrained_here = 0
         for i in range(n_instances):
+            if chk.elapsed() > deadline:
+                chk.count("instances_skipped_for_budget", n_instances - i)
+                break
             cls = classes[i % len(classes)]
             try:
                 inst = gen.gen_instance(cls)
@@ -453,7 +486,7 @@ def check_pattern(chk: harness.Check, lab: xschema.PatternLab, source: str, patt
         if case.run is None:
             return
         chk.count("patterns_accepted_by_front_end")
-        if not xsd_outcome(chk, case.run, base, "patterns"):
+        if not xsd_outcome(chk, case.run, base, "patterns", [pattern]):
             chk.case()
             return
         assert case.validators is not None
@@ -562,7 +595,7 @@ def worker(args) -> Dict[str, Any]:
             models += [(n, t, s) for n, t, s in fixture_cases()
                        if chk.tier == "thorough" or "v3" not in n]
         for i in range(shard, n_models, n_shards):
-            m = mmgen.generate(chk.rng("model", i), mmg_profile(i))
+            m = xschema.generate_schema_model(chk.rng("model", i), mmg_profile(i))
             models.append((f"mmg/{chk.seed}/{i}", m.text, None))
             for k, v in m.features.items():
                 chk.hist("mmg_features", k, v)
@@ -571,7 +604,7 @@ def worker(args) -> Dict[str, Any]:
                 chk.count("models_skipped_for_budget", len(models) - idx)
                 break
             check_model(chk, name, text, chk.rng("inst", name), n_instances,
-                        n_xmllint=chk.pick(6, 12), fixture_snippets=snippets)
+                        n_xmllint=chk.pick(6, 12), fixture_snippets=snippets, deadline=budget)
     except Exception:  # noqa
         chk.harness_error("worker failed: " + traceback.format_exc()[-1500:])
     return chk.export()
@@ -584,6 +617,7 @@ def main(argv) -> int:
     n_patterns = chk.pick(240, 4000)
     n_strings = chk.pick(30, 60)
     n_shards = max(1, WORKERS)
+    xschema.warm_up()
     with concurrent.futures.ProcessPoolExecutor(max_workers=n_shards) as pool:
         jobs = [
             pool.submit(worker, (list(argv), s, n_shards, n_models, n_instances, n_patterns, n_strings))
